@@ -304,7 +304,14 @@ func reportUnitDisagreements(pid string, dis []map[string]any, replayDir string)
 		os.WriteFile(path, b, 0o644)
 		fmt.Printf("VIOLATION property=%s replay=%s\n  %s (%s): %s\n", pid, path, d["kind"], d["stream"], d["message"])
 		if g, ok := d["go"]; ok {
-			fmt.Printf("  go=%s\n  model=%s\n", canon(g), canon(d["model_out"]))
+			gs, ms := canon(g), canon(d["model_out"])
+			if len(gs) > 600 {
+				gs = gs[:600] + "…"
+			}
+			if len(ms) > 600 {
+				ms = ms[:600] + "…"
+			}
+			fmt.Printf("  go=%s\n  model=%s\n", gs, ms)
 		}
 		n++
 	}
